@@ -260,60 +260,105 @@ def rule_groups(rep, repo, classes, rule="R6", tier="quick"):
         for e in [None] + [d for d in range(1, L + 1) if L % d == 0]:
           if rank == 1 and e is not None:
             continue
-          kw = dict(base, scale_axis=a)
-          if e is not None:
-            kw["elements_per_scale"] = e
-          cfg = "%s(%s)@shape%s" % (cls, oracle.show_kwargs(kw), shp)
-          try:
-            b = quant.build(repo, cls, kw, x_shape=shp)
-          except ConfigRejected:
-            continue
-          sattr = "scale" if cls != "quantized_linear" else \
-              "quantization_scale"
-          sc = b.obj.attrs.get(sattr)
-          if not isinstance(sc, Tensor):
-            rep.fail(rule, unit, "no-scale-recorded", "%s: no scale" % cfg,
-                     instance=cfg)
-            continue
-          n += 1
-          loc = b.pe.loc_of(sc.term)
-          import numpy as np
-          try:
-            owner, reads = group_labels(sc.term, shp)
-          except GroupInconclusive as ex:
-            raise AnalysisError("unsupported-construct grouped scale of %s: "
-                                "%s" % (cfg, ex))
-          except GroupMismatch as ex:
-            rep.fail(rule, unit, "group-membership",
-                     "%s: %s" % (cfg, ex), loc=loc, instance=cfg)
-            continue
-          ee = 1 if e is None else e
-          # expected: positions with the same index j // e along axis a (and
-          # any index along the other axes) form one group
-          idx = np.indices(shp)[a] // ee if e is not None else \
-              np.indices(shp)[a]
-          want = idx.reshape(-1).tolist()
-          # the partition induced by `owner` must be the expected one
-          pairs = {}
-          ok_part = True
-          for o, w in zip(owner, want):
-            if pairs.setdefault(o, w) != w:
-              ok_part = False
-          ok_part = ok_part and len(set(pairs.values())) == len(pairs) and \
-              -1 not in pairs
-          rep.check(ok_part, rule, unit, "group-membership",
-                    "%s: the means that feed the scale do not average "
-                    "exactly the elements of one group (groups of %d along "
-                    "axis %d, all other axes reduced); cell of each element: "
-                    "%s" % (cfg, ee, a, owner[:48]), loc=loc, instance=cfg)
-          rep.check(reads == owner, rule, unit, "group-scale-misplaced",
-                    "%s: position p of the tensor is scaled with the value "
-                    "computed for another group: cells read %s, cells the "
-                    "positions belong to %s" % (cfg, reads[:48], owner[:48]),
-                    loc=loc, instance=cfg)
+          for spelled_as_lists in ((False, True) if e is not None
+                                   else (False,)):
+            kw = dict(base, scale_axis=a)
+            if e is not None:
+              kw["elements_per_scale"] = e
+            if spelled_as_lists:
+              # the list spelling of the same grouping
+              kw["scale_axis"], kw["elements_per_scale"] = [a], [e]
+            cfg = "%s(%s)@shape%s" % (cls, oracle.show_kwargs(kw), shp)
+            try:
+              b = quant.build(repo, cls, kw, x_shape=shp)
+            except ConfigRejected:
+              continue
+            sattr = "scale" if cls != "quantized_linear" else \
+                "quantization_scale"
+            sc = b.obj.attrs.get(sattr)
+            if not isinstance(sc, Tensor):
+              rep.fail(rule, unit, "no-scale-recorded", "%s: no scale" % cfg,
+                       instance=cfg)
+              continue
+            n += 1
+            loc = b.pe.loc_of(sc.term)
+            import numpy as np
+            try:
+              owner, reads = group_labels(sc.term, shp)
+            except GroupInconclusive as ex:
+              raise AnalysisError("unsupported-construct grouped scale of %s: "
+                                  "%s" % (cfg, ex))
+            except GroupMismatch as ex:
+              rep.fail(rule, unit, "group-membership",
+                       "%s: %s" % (cfg, ex), loc=loc, instance=cfg)
+              continue
+            ee = 1 if e is None else e
+            # expected: positions with the same index j // e along axis a (and
+            # any index along the other axes) form one group
+            idx = np.indices(shp)[a] // ee if e is not None else \
+                np.indices(shp)[a]
+            want = idx.reshape(-1).tolist()
+            # the partition induced by `owner` must be the expected one
+            pairs = {}
+            ok_part = True
+            for o, w in zip(owner, want):
+              if pairs.setdefault(o, w) != w:
+                ok_part = False
+            ok_part = ok_part and len(set(pairs.values())) == len(pairs) and \
+                -1 not in pairs
+            rep.check(ok_part, rule, unit, "group-membership",
+                      "%s: the means that feed the scale do not average "
+                      "exactly the elements of one group (groups of %d along "
+                      "axis %d, all other axes reduced); cell of each element: "
+                      "%s" % (cfg, ee, a, owner[:48]), loc=loc, instance=cfg)
+            rep.check(reads == owner, rule, unit, "group-scale-misplaced",
+                      "%s: position p of the tensor is scaled with the value "
+                      "computed for another group: cells read %s, cells the "
+                      "positions belong to %s" % (cfg, reads[:48], owner[:48]),
+                      loc=loc, instance=cfg)
   if n < 20:
     raise AnalysisError("instance-count only %d grouped-scale "
                         "configurations" % n)
+
+
+def rule_late_data_format(rep, repo, configs, rule):
+  """The image data format is global state that may be switched after the
+  library was imported: a quantizer used afterwards behaves as if the format
+  had been set before the import - nothing is read at import time, e.g. in a
+  default argument (shared with C05)."""
+  from ..qir import equal_mod_finite as _eqf
+  mod = repo.module(quant.QMOD)
+
+  def late_switch(pe, m):
+    pe.module_globals(m)                      # the import happens now ...
+    pe.image_data_format = "channels_first"   # ... the switch afterwards
+  n9 = 0
+  for cls, kw in configs:
+    for shp in ((4, 6), (4, 3, 3, 5)):
+      cfg = "%s(%s)@shape%s, channels_first selected after import" % (
+          cls, oracle.show_kwargs(kw), shp)
+      try:
+        early = quant.build(repo, cls, kw, x_shape=shp,
+                            image_data_format="channels_first")
+        late = quant.build(repo, cls, kw, x_shape=shp,
+                           image_data_format="channels_last",
+                           setup=late_switch)
+      except ConfigRejected:
+        continue
+      n9 += 1
+      unit9 = "%s::%s.__call__" % (mod.relpath, cls)
+      same = all(_eqf(early.fwd(ph), late.fwd(ph)) for ph in ("infer",
+                                                              "train"))
+      for sattr in ("scale", "quantization_scale"):
+        s1, s2 = early.obj.attrs.get(sattr), late.obj.attrs.get(sattr)
+        if same and isinstance(s1, Tensor) and isinstance(s2, Tensor):
+          same = _eqf(Fwd()(s1.term), Fwd()(s2.term))
+      rep.check(same, rule, unit9, "data-format-read-at-import",
+                "%s: the quantizer computes %s, with the format selected "
+                "before the import %s" % (cfg, show(late.fwd(), 160),
+                                          show(early.fwd(), 160)),
+                loc=late.pe.loc_of(late.term), instance=cfg)
+  return n9
 
 
 def rule_call_is_pure(rep, repo, classes, rule, tier):
@@ -496,6 +541,14 @@ def run(rep, repo, tier):
   rule_groups(rep, repo, [("binary", dict(alpha="auto")),
                           ("binary", dict(alpha="auto_po2", use_01=True)),
                           ("ternary", dict(alpha="auto"))], "R6", tier)
+  n9 = rule_late_data_format(rep, repo, [
+      ("binary", dict(alpha="auto")), ("binary", dict(alpha="auto_po2")),
+      ("binary", dict(alpha="auto", use_01=True)),
+      ("ternary", dict(alpha="auto")), ("ternary", dict(alpha="auto_po2")),
+      ("stochastic_binary", dict(alpha="auto")),
+      ("stochastic_ternary", dict(alpha="auto"))], "R9")
+  if n9 < 10:
+    raise AnalysisError("instance-count only %d data-format scenarios" % n9)
   n8 = rule_call_is_pure(rep, repo, [
       ("binary", dict(alpha="auto")), ("binary", dict(alpha="auto_po2",
                                                       use_01=True)),
